@@ -478,6 +478,8 @@ def blockdims_from_blockshape(shape, chunks):
         raise ValueError("shape can only contain integers.")
     shape = tuple(map(int, shape))
     chunks = tuple(map(int, chunks))
+    if any(bd < 0 or (bd == 0 and d) for d, bd in zip(shape, chunks)):
+        raise ValueError(f"Chunk sizes must be positive (or 0 for a zero-length axis). Got chunks={chunks}, shape={shape}")
     return tuple(((bd,) * (d // bd) + ((d % bd,) if d % bd else ()) if d else (0,)) for d, bd in zip(shape, chunks))
 
 
@@ -884,6 +886,8 @@ def normalize_chunks(chunks, shape=None, limit=None, dtype=None, previous_chunks
     if not allints and shape is not None:
         if not all(c == s or (math.isnan(c) or math.isnan(s)) for c, s in zip(map(sum, chunks), shape)):
             raise ValueError(f"Chunks do not add up to shape. Got chunks={chunks}, shape={shape}")
+    if not allints and any(x < 0 or (x != int(x) if not math.isnan(x) else False) for c in chunks for x in c):
+        raise ValueError(f"Chunk sizes must be non-negative integers. Got chunks={chunks}")
     if allints or isinstance(sum(sum(_) for _ in chunks), int):
         # Fastpath for when we already know chunks contains only integers
         return tuple(tuple(ch) for ch in chunks)
